@@ -584,13 +584,11 @@ def writer_init_contract(fmt):
         w = st.heap[st.ghost["this"].oid].get("_delegated_writer")
         return Sym(BOOL, z3.BoolVal(isinstance(w, Ref) and w.cls == cls and w == st.ghost["delegated"]))
     return Contract("validio.Writer.__init__", setup_writer_init(fmt),
-        returns=[Clause("resets_done == m", "every-check-of-the-cid-is-reset-before-the-first-row-is-written", props=["C08", "C14", "C20"]),
+        returns=[Clause("resets_done == 0 and this._has_reset_checks == False", "creating-a-writer-touches-no-check-and-leaves-the-run-not-begun:-the-first-validated-row-(or-close())-resets-the-checks-(validate_row-/-close-contracts)", props=["C08", "C14", "C20"]),
                  Clause(delegated_ok, "rows-are-delegated-to-the-writer-of-the-cid's-format", props=["C14"]),
-                 Clause("this._cid is cid and this._is_closed == False", "bound-to-the-given-cid", props=["C14"]),
-                 Clause("this._has_reset_checks == True", "the-run-counts-as-begun:-the-first-written-row-does-not-reset-the-checks-again", props=["C08", "C14", "C20"])] if supported else [Clause("False", "unsupported-format-has-no-writer")],
+                 Clause("this._cid is cid and this._is_closed == False", "bound-to-the-given-cid", props=["C14"])] if supported else [Clause("False", "unsupported-format-has-no-writer")],
         raises={} if supported else {"NotImplementedError": []},
-        loops={0: LoopSpec(invariants=["resets_done == _i0"], havoc={"check": CHECK}, ghost_havoc={"resets_done": INT}, match="self.cid.check_map.values()")},
-        expect=["return"] if supported else ["NotImplementedError"], n_loops=1)
+        expect=["return"] if supported else ["NotImplementedError"], n_loops=0)
 
 
 def unit_writer_init():
@@ -599,7 +597,7 @@ def unit_writer_init():
                  "callees": {"class:DelimitedRowWriter": m_new_row_writer("DelimitedRowWriter"), "class:FixedRowWriter": m_new_row_writer("FixedRowWriter"),
                              "interface.field_names_and_lengths": ModelContract(m_field_names_and_lengths), "abs:Check.reset": AbsContract(m_reset)},
                  "assumptions": ["the row writers' constructors are used through their contracts (rowio units); reset() of a check is abstract and protocol-monitored"]} for f in ("delimited", "fixed", "excel")]
-    return ProofUnit("validio.Writer.__init__", "Writer.__init__: all checks reset once in order, delegated writer of the right kind", ["C08", "C14", "C20"], make, None)
+    return ProofUnit("validio.Writer.__init__", "Writer.__init__: delegated writer of the right kind; the checks are left alone (reset with the first validated row or at close)", ["C08", "C14", "C20"], make, None)
 
 
 # ---- write_row
